@@ -220,8 +220,11 @@ func main() {
 		}, 0, bound)
 		// F6: complete (b=e=1) but empty slices without marker pass the byte cap and are appended forever
 		n := bound + 3000
+		// the decoder keeps payload sub-slices, never the packet: one packet object serves all calls
+		empty := &rtp.Packet{Header: rtp.Header{Version: 2}, Payload: []byte{0, 0, 0x18, 0}}
 		Format.EndlessFragments(ctx, "endless-empty-slices", n, func(i int, seq uint16) *rtp.Packet {
-			return &rtp.Packet{Header: rtp.Header{Version: 2, SequenceNumber: seq}, Payload: []byte{0, 0, 0x18, 0}}
+			empty.SequenceNumber = seq
+			return empty
 		}, bound, 0)
 		// F6: empty middle fragments after a one-byte start fragment (thorough tier only: 10^6 more calls)
 		if ctx.Thorough {
